@@ -17,8 +17,8 @@ CLAIMED = {
   "Trusted: the instrumented ReadSeeker counts; wall clock only for confirmed non-termination."),
  "C03": ("exploration",
   "property-based testing (rapid): round trip through an independent TIFF/Exif encoder, record as oracle",
-  "decode(encode(record, layout)) is compared field by field with the record through a spec-written interpretation; layouts cover block order, padding, foreign tags, embedded vs out-of-line, the 84-pending-tag and 128-entry limits, both byte orders, buffered and unbuffered entry points; fixed-seed records are re-encoded with IFD0 at every offset 8..4500 (thorough 12700) so that every structure crosses every 1 KiB / 4 KiB reader-window boundary.",
-  "Trusted: the check's own TIFF/Exif encoder (written from TIFF 6.0/Exif 2.32, with an independent re-parse self-test) and field model (DESIGN Appendix A)."),
+  "decode(encode(record, layout)) is compared field by field with the record through a spec-written interpretation; layouts cover block order, padding, foreign tags, embedded vs out-of-line, the 84-pending-tag and 128-entry limits, both byte orders, buffered and unbuffered entry points; fixed-seed records are re-encoded with IFD0 at every offset 8..4500 (thorough 12700) so that every structure crosses every 1 KiB / 4 KiB reader-window boundary; further checks cover directories at the 85 / 128 entry limits, SHORT/LONG arrays stored out of line (ISO, strips) and text values around and beyond the reader windows.",
+  "Trusted: the check's own TIFF/Exif encoder (written from TIFF 6.0/Exif 2.32, with an independent re-parse self-test) and field model (DESIGN Appendix A). Two recorded findings (text values longer than the reader window are reported as absent)."),
  "C06": ("exploration",
   "property-based testing (rapid): differential across containers + record oracle",
   "The same generated payload in TIFF/JPEG/PNG/CR3(CMT1 and split)/HEIF with random surroundings must give identical masked digests through every corresponding entry point and equal the record; a second check (filler independence) puts format-valid filler of every length up to one (thorough: three) 4 KiB buffers in front of the block in JPEG/PNG/CR3/HEIF and requires the result of the same file without filler.",
